@@ -426,34 +426,58 @@ func (s *SMT) solve(query string, name string) *SolveResult {
 	os.WriteFile(file, []byte(query), 0o644)
 	res := &SolveResult{Status: "unknown", QueryLen: len(query), File: file}
 	if s.tier == "thorough" {
+		// all three back ends on every query; none may say sat.  Once two agree on unsat the third gets 30 s more
+		// (a back end that is still silent then is recorded as "no answer"); one definite unsat with the other two
+		// at their timeout is accepted and counted separately.
 		type ans struct {
 			name, status, out string
 			secs              float64
 		}
+		ctx, cancel := context.WithCancel(context.Background())
 		ch := make(chan ans, len(solvers))
 		for _, sv := range solvers {
 			go func(sv Solver) {
-				st, out, secs := runSolver(sv, file, s.timeoutT)
+				st, out, secs := runSolverCtx(ctx, sv, file, s.timeoutT)
 				ch <- ans{sv.Name, st, out, secs}
 			}(sv)
 		}
-		nUnsat, nSat := 0, 0
+		nUnsat, nSat, got := 0, 0, 0
 		var satOut, satBy string
-		for range solvers {
-			a := <-ch
-			res.Agree = append(res.Agree, a.name+"="+a.status)
-			res.Seconds += a.secs
-			switch a.status {
-			case "unsat":
-				nUnsat++
-				if res.Backend == "" {
-					res.Backend = a.name
+		answered := map[string]bool{}
+		var grace <-chan time.Time
+		t0 := time.Now()
+	collect:
+		for got < len(solvers) {
+			select {
+			case a := <-ch:
+				got++
+				answered[a.name] = true
+				res.Agree = append(res.Agree, a.name+"="+a.status)
+				switch a.status {
+				case "unsat":
+					nUnsat++
+					if res.Backend == "" {
+						res.Backend = a.name
+					}
+					if nUnsat == 2 && grace == nil {
+						grace = time.After(30 * time.Second)
+					}
+				case "sat":
+					nSat++
+					satOut, satBy = a.out, a.name
+					break collect
 				}
-			case "sat":
-				nSat++
-				satOut, satBy = a.out, a.name
+			case <-grace:
+				break collect
 			}
 		}
+		cancel()
+		for _, sv := range solvers {
+			if !answered[sv.Name] {
+				res.Agree = append(res.Agree, sv.Name+"=no answer in time")
+			}
+		}
+		res.Seconds = time.Since(t0).Seconds()
 		switch {
 		case nSat > 0:
 			res.Status, res.Backend, res.Raw = "sat", satBy, satOut
